@@ -287,7 +287,9 @@ def explore_case(col, fn, assumptions, on_ok=None, on_exc=None, timeout_ms=20000
 def _worker_init(modname, repo):
     os.environ["EVOVERIF_REPO"] = repo
     import warnings
+    import logging
     warnings.filterwarnings("ignore")
+    logging.disable(logging.CRITICAL)
     h = importlib.import_module(modname)
     if hasattr(h, "worker_init"):
         h.worker_init()
